@@ -14,6 +14,7 @@ import sys
 import time
 import traceback
 
+from . import findings
 from .tape import Tape, derive_seed
 
 VERIF = os.path.dirname(os.path.dirname(os.path.abspath(__file__)))
@@ -209,6 +210,8 @@ def worker_main(argv):
         "evaluations": 0,
     }
     seen_classes = set()
+    known = findings.load_known()
+    n_minimised = 0
     for idx in range(start, start + count):
         if time.monotonic() - t0 > budget:
             agg["stopped_early"] = True
@@ -237,17 +240,20 @@ def worker_main(argv):
             agg["digests"].append([idx, out.get("digest")])
         for v in out["violations"]:
             cls = vclass(v)
-            fkey = (cls, json.dumps(jsonable(v.get("signature")), sort_keys=True))
+            k = findings.match_known(pid, cls, v.get("signature"), known)
+            fkey = ("known", k["id"]) if k is not None else (cls, json.dumps(jsonable(v.get("signature")), sort_keys=True))
             if fkey in seen_classes:
                 agg["probes"]["violation_dup"] += 1
                 continue
             seen_classes.add(fkey)
-            if len(seen_classes) > 4:
-                agg["probes"]["violation_not_minimised"] += 1
-                continue
             case, tape = v.get("case", out["case"]), v.get("exec_tape", out["exec_tape"])
             try:
-                scase, stape, ok = shrink(eng, case, tape, cls, budget_s=20.0)
+                if n_minimised < 6:
+                    n_minimised += 1
+                    scase, stape, ok = shrink(eng, case, tape, cls, budget_s=15.0)
+                else:
+                    scase, stape = case, tape
+                    agg["probes"]["violation_not_minimised"] += 1
                 with quiet():
                     fin = eng.run_case(scase, exec_tape=stape)
                 fv = next((x for x in fin["violations"] if vclass(x) == cls), None)
